@@ -1,7 +1,9 @@
 pub mod c01;
 pub mod c02;
 pub mod c03;
+pub mod c07;
 pub mod c13;
+pub mod c16;
 
 use crate::engine::Check;
 
@@ -11,7 +13,9 @@ pub fn get(prop: &str) -> Option<Box<dyn Check>> {
         "C02" => Some(Box::new(c02::C02::new())),
         "C03" => Some(Box::new(c03::C03::new())),
         "C04" => Some(Box::new(c13::AsmCheck::new(c13::Which::C04))),
+        "C07" => Some(Box::new(c07::C07)),
         "C13" => Some(Box::new(c13::AsmCheck::new(c13::Which::C13))),
+        "C16" => Some(Box::new(c16::C16::new())),
         _ => None,
     }
 }
